@@ -328,6 +328,83 @@ inductive FieldLit where
   | emit (e : GoExpr)
   | stop
 
+/-- `needsExplicitDefault` -/
+def needsDefault (f : Field) (resolved : Ty) (extras : List (String × Val)) : Bool :=
+  let extraNonNil := match lookupKV f.name extras with | some v => !Cog.Passes.Val.isNil v | none => false
+  !Cog.Passes.Val.isNil f.ty.getMeta.dflt || extraNonNil
+    || (f.required && f.ty.isRef && resolved.isStruct) || (f.required && f.ty.isArray) || (f.required && f.ty.isMap)
+    || isConcreteScalar f.ty || isCref f.ty
+
+/-- the value printed for a field that carries an override from the enclosing struct default
+    (`if extraDefault, ok := extraDefaults[field.Name]; ok`) -/
+def extraLit (c : Ctx) (f : Field) (resolved : Ty) (ev : Val) : GoExpr :=
+  let m := f.ty.getMeta
+  let dv := formatScalar ev
+  if f.ty.isRef && isGenStruct resolved then
+    (match resolved, f.ty with
+      | .struct rfs _ _ _, .ref p n _ =>
+        let bn := ucc (branchNameOf ev)
+        let (bn, bty) := match fieldByName bn rfs with
+          | some bf => (bn, bf.ty)
+          | none => ("Any", match fieldByName "Any" rfs with | some bf => bf.ty | none => Ty.bad "" {})
+        let actual := maybePtr c dv true bty
+        let lit := GoExpr.composite (.named (c.mapPkg p) (ucc n)) [(ucc bn, actual)]
+        if m.nullable then .addr lit else lit
+      | _, _ => .crash "unreachable")
+  else maybePtr c dv m.nullable resolved
+
+/-- the `else if` chain of `defaultsForStruct` for a field without override; `nested` prints the
+    literal of a referenced struct that carries its own default (the recursive call) -/
+def ownLit (c : Ctx) (f : Field) (resolved : Ty) (nested : String → String → List Field → Val → GoExpr) : FieldLit :=
+  let m := f.ty.getMeta
+  match f.ty with
+  | .scalar _ v _ _ =>
+    if !Cog.Passes.Val.isNil v then .emit (maybePtr c (formatScalar v) m.nullable resolved)
+    else if !Cog.Passes.Val.isNil m.dflt then .emit (maybePtr c (formatScalar m.dflt) m.nullable resolved)
+    else .emit (.placeholder phUnsupportedDefault)
+  | .ref p n _ =>
+    (match resolved with
+      | .scalar .. | .map .. | .array .. =>
+        if !Cog.Passes.Val.isNil m.dflt then .emit (maybePtr c (formatScalar m.dflt) m.nullable resolved)
+        else .emit (.placeholder phUnsupportedDefault)
+      | .struct rfs _ _ _ =>
+        if !Cog.Passes.Val.isNil m.dflt then
+          let lit := nested p n rfs m.dflt
+          .emit (if m.nullable then .addr lit else lit)
+        else
+          let call := GoExpr.call (c.mapPkg p) ("New" ++ ucc n)
+          .emit (if m.nullable then call else .deref call)
+      | .enum vs _ =>
+        (match vs with
+          | [] => .emit (.crash "defaultsForStruct:Enum.Values[0]")
+          | v0 :: _ =>
+            let member := match enumMemberFor m.dflt vs with | some x => x | none => v0.name
+            .emit (maybePtr c (.ident (c.mapPkg p) member) m.nullable f.ty))
+      | _ => .emit (.placeholder phUnsupportedDefault))
+  | .cref p n v _ =>
+    (match c.resolve (.ref p n {}) with
+      | none => .emit (.crash "defaultsForStruct:ResolveRefs-cycle")
+      | some (.enum vs _) =>
+        (match enumMemberFor v vs with
+          | some member => .emit (.ident (c.mapPkg p) member)
+          | none => .emit (.ident (c.mapPkg p) ""))     -- no member matches: the text is empty (or `pkg.`)
+      | some _ => .stop)                                 -- `break`: leaves the loop over the fields
+  | .array e _ =>
+    if !Cog.Passes.Val.isNil m.dflt then .emit (maybePtr c (formatScalar m.dflt) m.nullable resolved)
+    else .emit (.sliceLit (fmtTy c e) [])
+  | .map i v _ =>
+    if !Cog.Passes.Val.isNil m.dflt then .emit (maybePtr c (formatScalar m.dflt) m.nullable resolved)
+    else .emit (.mapLit (fmtTy c i) (fmtTy c v) [])
+  | _ => .emit (.placeholder phUnsupportedDefault)
+
+/-- one iteration of the loop over the fields, given the resolved field type -/
+def fieldLit (c : Ctx) (f : Field) (resolved : Ty) (extras : List (String × Val))
+    (nested : String → String → List Field → Val → GoExpr) : FieldLit :=
+  if !needsDefault f resolved extras then .skip else
+  match lookupKV f.name extras with
+  | some ev => .emit (extraLit c f resolved ev)
+  | none => ownLit c f resolved nested
+
 mutual
 /-- `defaultsForStruct(context, objectRef, objectType, maybeExtraDefaults)`; fuel counts the nesting of
     struct defaults (unbounded for a default on a reference that closes a cycle) -/
@@ -347,69 +424,7 @@ def defaultsField (c : Ctx) : Nat → Field → List (String × Val) → FieldLi
     if isBad f.ty then .emit (.crash "defaultsForStruct:malformed-field-type") else
     match c.resolve f.ty with
     | none => .emit (.crash "defaultsForStruct:ResolveRefs-cycle")
-    | some resolved =>
-      let m := f.ty.getMeta
-      let extra := lookupKV f.name extras
-      let extraNonNil := match extra with | some v => !Cog.Passes.Val.isNil v | none => false
-      let needs := !Cog.Passes.Val.isNil m.dflt || extraNonNil
-        || (f.required && f.ty.isRef && resolved.isStruct) || (f.required && f.ty.isArray) || (f.required && f.ty.isMap)
-        || isConcreteScalar f.ty || isCref f.ty
-      if !needs then .skip else
-      match extra with
-      | some ev =>
-        let dv := formatScalar ev
-        if f.ty.isRef && isGenStruct resolved then
-          (match resolved, f.ty with
-            | .struct rfs _ _ _, .ref p n _ =>
-              let bn := ucc (branchNameOf ev)
-              let (bn, bty) := match fieldByName bn rfs with
-                | some bf => (bn, bf.ty)
-                | none => ("Any", match fieldByName "Any" rfs with | some bf => bf.ty | none => Ty.bad "" {})
-              let actual := maybePtr c dv true bty
-              let lit := GoExpr.composite (.named (c.mapPkg p) (ucc n)) [(ucc bn, actual)]
-              .emit (if m.nullable then .addr lit else lit)
-            | _, _ => .emit (.crash "unreachable"))
-        else .emit (maybePtr c dv m.nullable resolved)
-      | none =>
-        match f.ty with
-        | .scalar _ v _ _ =>
-          if !Cog.Passes.Val.isNil v then .emit (maybePtr c (formatScalar v) m.nullable resolved)
-          else if !Cog.Passes.Val.isNil m.dflt then .emit (maybePtr c (formatScalar m.dflt) m.nullable resolved)
-          else .emit (.placeholder phUnsupportedDefault)
-        | .ref p n _ =>
-          (match resolved with
-            | .scalar .. | .map .. | .array .. =>
-              if !Cog.Passes.Val.isNil m.dflt then .emit (maybePtr c (formatScalar m.dflt) m.nullable resolved)
-              else .emit (.placeholder phUnsupportedDefault)
-            | .struct rfs _ _ _ =>
-              if !Cog.Passes.Val.isNil m.dflt then
-                let lit := defaultsForStruct c fuel p n rfs m.dflt
-                .emit (if m.nullable then .addr lit else lit)
-              else
-                let call := GoExpr.call (c.mapPkg p) ("New" ++ ucc n)
-                .emit (if m.nullable then call else .deref call)
-            | .enum vs _ =>
-              (match vs with
-                | [] => .emit (.crash "defaultsForStruct:Enum.Values[0]")
-                | v0 :: _ =>
-                  let member := match enumMemberFor m.dflt vs with | some x => x | none => v0.name
-                  .emit (maybePtr c (.ident (c.mapPkg p) member) m.nullable f.ty))
-            | _ => .emit (.placeholder phUnsupportedDefault))
-        | .cref p n v _ =>
-          (match c.resolve (.ref p n {}) with
-            | none => .emit (.crash "defaultsForStruct:ResolveRefs-cycle")
-            | some (.enum vs _) =>
-              (match enumMemberFor v vs with
-                | some member => .emit (.ident (c.mapPkg p) member)
-                | none => .emit (.ident (c.mapPkg p) ""))     -- no member matches: the text is empty (or `pkg.`)
-            | some _ => .stop)
-        | .array e _ =>
-          if !Cog.Passes.Val.isNil m.dflt then .emit (maybePtr c (formatScalar m.dflt) m.nullable resolved)
-          else .emit (.sliceLit (fmtTy c e) [])
-        | .map i v _ =>
-          if !Cog.Passes.Val.isNil m.dflt then .emit (maybePtr c (formatScalar m.dflt) m.nullable resolved)
-          else .emit (.mapLit (fmtTy c i) (fmtTy c v) [])
-        | _ => .emit (.placeholder phUnsupportedDefault)
+    | some resolved => fieldLit c f resolved extras (fun p n rfs d => defaultsForStruct c fuel p n rfs d)
 end
 
 /-- `generateConstructor` -/
